@@ -70,6 +70,8 @@ def jobs(tier, seed):
             out.append({"id": f"codec/{tn}/{ti:02d}", "fam": "codec", "table": tn, "tpl": tpl})
         for tpl in (["?", "??", "?[0xhh]"] if tier == "quick" else ["?", "??", "???", "?[0xhh]", "[0xhh]?"]):
             out.append({"id": f"directive/{tn}/{tpl}", "fam": "directive", "table": tn, "tpl": tpl})
+        for tpl in (["??"] if tier == "quick" else ["?", "??", "?[0xhh]"]):
+            out.append({"id": f"reload/{tn}/{tpl}", "fam": "reload", "table": tn, "tpl": tpl})
     return out
 
 
@@ -115,6 +117,18 @@ def run(spec, cx):
             rt = ("decode-raised", type(e).__name__)
         return ("encoded", b, rt)
     other = "7f=a\n7e=b\n7d=[\n"
+    if spec["fam"] == "reload":
+        # a table loaded AFTER a .text (same scope, and in a nested scope): text written before the
+        # load keeps the table that was in force where it is written
+        src = cx.string(
+            [ord(c) for c in "*=0x8000\n.table 't.tbl'\n.text '"] + chars + [ord(c) for c in "'\n.db 0xEE\n.table 'u.tbl'\n.text '"] + chars
+            + [ord(c) for c in "'\n.db 0xEE\n{\n.text '"] + chars + [ord(c) for c in "'\n.db 0xEE\n.table 't.tbl'\n.text '"] + chars + [ord(c) for c in "'\n}\n"]
+        )
+        with virtual_files(cx, {"t.tbl": tsrc, "u.tbl": other}):
+            r = assemble(src, {})
+        if r[0] == "ok":
+            return ("assembled", [(a, b) for a, b in r[1]])
+        return ("rejected", "error-string" if r[0] == "error" else type(r[1]).__name__)
     src = cx.string(
         [ord(c) for c in "*=0x8000\n.table 't.tbl'\n.text '"] + chars + [ord(c) for c in "'\nm1:\n.db 0xEE\n{\n.text '"] + chars
         + [ord(c) for c in "'\nm2:\n.dl m2\n}\n{\n.table 'u.tbl'\n.text '"] + chars + [ord(c) for c in "'\nm3:\n.dl m3\n}\n.dl m1\n"]
@@ -181,6 +195,13 @@ def check(spec, cx, out):
         if tk1 is None or tk2 is None:
             continue
         e1, e2 = _expected_bytes(tk1), _expected_bytes(tk2)
+        if spec["fam"] == "reload":
+            exp = e1 + [B(0xEE)] + e2 + [B(0xEE)] + e2 + [B(0xEE)] + e1
+            if len(exp) != len(bs):
+                conds.append(z3.Not(pre))
+            else:
+                conds.append(z3.Implies(pre, z3.And(*[a == b for a, b in zip(bs, exp)])))
+            continue
         m1 = 0x8000 + len(e1)
         m2 = m1 + 1 + len(e1)
         m3 = m2 + 3 + len(e2)
@@ -190,5 +211,5 @@ def check(spec, cx, out):
             conds.append(z3.Not(pre))
         else:
             conds.append(z3.Implies(pre, z3.And(*[a == b for a, b in zip(bs, exp)])))
-    res.append(("text-bytes-and-size-per-scope-table", z3.And(*conds) if conds else z3.BoolVal(True)))
+    res.append(("text-uses-table-in-force-where-written" if spec["fam"] == "reload" else "text-bytes-and-size-per-scope-table", z3.And(*conds) if conds else z3.BoolVal(True)))
     return res
